@@ -388,7 +388,9 @@ def _expand(idx: PyIndex, fi: FuncInfo, call: ast.Call, h: FuncInfo, at: ast.AST
             return None
         # an argument that is a plain name / attribute path / constant is substituted directly (no alias), unless the helper rebinds the parameter
         simple = isinstance(v, (ast.Name, ast.Constant)) or (isinstance(v, ast.Attribute) and _is_path(v))
-        if not simple and isinstance(v, (ast.Tuple, ast.List)) and all(isinstance(c, (ast.Name, ast.Constant)) or (isinstance(c, ast.Attribute) and _is_path(c)) for c in v.elts):
+        if not simple and isinstance(v, (ast.Tuple, ast.List)) and all(isinstance(c.value if isinstance(c, ast.Starred) else c, (ast.Name, ast.Constant))
+                                                                      or (isinstance(c.value if isinstance(c, ast.Starred) else c, ast.Attribute)
+                                                                          and _is_path(c.value if isinstance(c, ast.Starred) else c)) for c in v.elts):
             # a display of plain values is read in place when the helper uses the parameter once
             simple = sum(1 for x in ast.walk(hn) if isinstance(x, ast.Name) and x.id == p and isinstance(x.ctx, ast.Load)) == 1
         if p not in stored and simple:
@@ -561,6 +563,24 @@ def inline_function(idx: PyIndex, fi: FuncInfo, depth: int = 2, keep=None, types
                         out.append(loop)
                         changed = True
                         continue
+                if isinstance(st, (ast.If, ast.While)):
+                    class _TestOnly(ast.NodeTransformer):
+                        def visit_Lambda(self, node):
+                            return node
+
+                        def visit_Call(self, node):
+                            self.generic_visit(node)
+                            h4 = _helper_for(idx, fi, node, tenv)
+                            if h4 is not None and h4.id != fi.id and h4.qualname.split('.')[-1] not in keep:
+                                e4 = _expr_form(idx, fi, node, h4)
+                                if e4 is not None:
+                                    nonlocal changed
+                                    changed = True
+                                    for x in ast.walk(e4):
+                                        ast.copy_location(x, node)
+                                    return e4
+                            return node
+                    st.test = _TestOnly().visit(st.test)
                 call = None
                 kind = None
                 if isinstance(st, ast.Expr) and isinstance(st.value, ast.Call):
@@ -628,10 +648,14 @@ def inline_function(idx: PyIndex, fi: FuncInfo, depth: int = 2, keep=None, types
 
                         def visit_IfExp(self, node):
                             node.test = self.visit(node.test)
+                            # the arms are evaluated conditionally: only helpers that reduce to one expression are replaced there
+                            node.body = _ExprOnly().visit(node.body)
+                            node.orelse = _ExprOnly().visit(node.orelse)
                             return node
 
                         def visit_BoolOp(self, node):
                             node.values[0] = self.visit(node.values[0])
+                            node.values[1:] = [_ExprOnly().visit(v) for v in node.values[1:]]
                             return node
 
                         def _comp(self, node):
@@ -670,6 +694,7 @@ def inline_function(idx: PyIndex, fi: FuncInfo, depth: int = 2, keep=None, types
             fn = folded
     fn = Canon().visit(fn)
     ast.fix_missing_locations(fn)
+    fn._inlined_any = changed_any
     if changed_any:
         # idioms that only appear once the helper body stands in place (a loop over the one-element tuple that was an argument, a flag now tested next to its definition)
         from .normalise import desugar
@@ -678,9 +703,52 @@ def inline_function(idx: PyIndex, fi: FuncInfo, depth: int = 2, keep=None, types
             if len(m.body) == 1 and isinstance(m.body[0], ast.FunctionDef):
                 fn = Canon().visit(m.body[0])
                 ast.fix_missing_locations(fn)
+                fn._inlined_any = True
         except RecursionError:      # pragma: no cover
             pass
     return fn
+
+
+def inline_fragments(idx: PyIndex, fi: FuncInfo, keep=None, depth: int = 2) -> FuncInfo:
+    """A copy of fi in which calls of helpers that reduce to ONE expression (a chain of single assignments and a return, if/else returns as a conditional
+    expression) are replaced by that expression wherever they stand (also inside comprehensions and conditional operands); everything else is left alone.
+    Returns fi itself when nothing was replaced."""
+    keep = set(keep or ())
+    if not isinstance(fi.node, ast.FunctionDef):
+        return fi
+    fn = copy.deepcopy(fi.node)
+    any_change = [False]
+
+    class _X(ast.NodeTransformer):
+        def visit_Lambda(self, node):
+            return node
+
+        def visit_Call(self, node):
+            self.generic_visit(node)
+            h = _helper_for(idx, fi, node, None)
+            if h is not None and h.id != fi.id and h.qualname.split('.')[-1] not in keep:
+                e = _expr_form(idx, fi, node, h)
+                if e is not None:
+                    any_change[0] = True
+                    for x in ast.walk(e):
+                        ast.copy_location(x, node)
+                    return e
+            return node
+    for _ in range(depth):
+        before = any_change[0]
+        any_change[0] = False
+        fn = _X().visit(fn)
+        now = any_change[0]
+        any_change[0] = before or now
+        if not now:
+            break
+    if not any_change[0]:
+        return fi
+    ast.fix_missing_locations(fn)
+    from .normalise import Canon
+    fn = Canon().visit(fn)
+    ast.fix_missing_locations(fn)
+    return FuncInfo(fi.module, fi.qualname, fn, fi.cls, fi.kind)
 
 
 def inlined_info(idx: PyIndex, fi: FuncInfo, depth: int = 2, keep=None, types: Optional[Dict[str, str]] = None) -> FuncInfo:
